@@ -176,6 +176,36 @@ let () = register "prog" (fun ic ->
                     if name = "rdn" then emit (Printf.sprintf "rdn 0 %d" nb) else
                     emit (Printf.sprintf "rd 0 %d %016Lx %s" nb (fnv64 il) (String.concat "" (List.map (Printf.sprintf "%02x") head))))
             | _ -> emit (name ^ " E"))
+         | "st" ->
+           (* exact sums per window: "st 0 n:sum:sumsq:min:max ..." (decimal); E when outside the signal *)
+           let start = toki t 2 and incr = toki t 3 and count = toki t 4 in
+           (match find_sig !c (tokn t 1) with
+            | Some s when s.ss_def.sg_type = jLS_SIGNAL_TYPE_FSR ->
+              let len = Int64.of_int (List.length s.ss_samples) in
+              if Int64.compare incr 0L <= 0 || Int64.compare start 0L < 0 then emit "st E"
+              else if Int64.compare count 0L <= 0 then emit "st 0"
+              else if Int64.compare incr len > 0 || Int64.compare count (Int64.div len incr) > 0
+                      || Int64.compare start (Int64.sub len (Int64.mul incr count)) > 0 then emit "st E"
+              else begin
+                let dt = int_of_n s.ss_def.sg_dtype in
+                let w = dt_bits dt in
+                let signed = (dt land 0x0f) = 1 in
+                let value (raw : n) : z =
+                  let v = i64_of_n raw in
+                  if dt_is_float dt then
+                    (let f = if w = 32 then Int32.float_of_bits (Int64.to_int32 v) else Int64.float_of_bits v in
+                     if Float.is_integer f then z_of_i64 (Int64.of_float f) else z_of_hex "7fffffffffffffff")
+                  else if signed && w < 64 && Int64.logand v (Int64.shift_left 1L (w - 1)) <> 0L then
+                    z_of_i64 (Int64.sub v (Int64.shift_left 1L w))
+                  else if (not signed) && w = 64 then (match raw with N0 -> Z0 | Npos p -> Zpos p)
+                  else z_of_i64 v in
+                let vals = List.map value s.ss_samples in
+                let ws = stats_windows vals (nat_of_int (Int64.to_int start)) (nat_of_int (Int64.to_int incr)) (nat_of_int (Int64.to_int count)) in
+                let dec x = let h = hex_of_z x in (* decimal via OCaml arbitrary? values fit in 2 int64 limbs rarely; print hex *) h in
+                emit ("st 0" ^ String.concat "" (List.map (fun (((sm, sq), mn), mx) ->
+                    Printf.sprintf " %Ld:%s:%s:%s:%s" incr (dec sm) (dec sq) (dec mn) (dec mx)) ws))
+              end
+            | _ -> emit "st E")
          | "an" ->
            (match find_sig !c (tokn t 1) with
             | None -> emit "an E"
